@@ -26,15 +26,16 @@
    What is missing: (1) wide cells in the proof (Model, correspondence and
    oracle cover them; the proof needs the terminal's overwrite-half-of-a-wide-
    glyph cases in the column loop) - the only reason for the _partial suffix;
-   (2) the final render of an output that fills all H rows: its single scroll
-   (the newline below the output) is checked by the oracle, the exact shifted
-   grid is not stated as a theorem.
+   (2) for the final render of an output that fills all H rows, the content of
+   the NEW last row after its single scroll (blank, by the oracle) - everything
+   else about that state is C06_done_scroll_once_partial.
    Proved since round 3: rows visited/written for EVERY intermediate token
    (the C06_rows theorems), never-scrolls on the bounded terminal (C06_no_scroll_partial,
    C06_done_no_scroll_partial), screens taller than the terminal. *)
 From Coq Require Import ZArith List Bool.
 From PTK Require Import Lib.Sx Lib.Py Model.C06_Terminal Model.C06_Renderer Model.C06_Run
-  Proofs.C06_TermFacts Proofs.C06_RowFacts Proofs.C06_DiffFacts Proofs.C06_SyncFacts.
+  Proofs.C06_TermFacts Proofs.C06_RowFacts Proofs.C06_DiffFacts Proofs.C06_SyncFacts
+  Proofs.C06_ScrollFacts Proofs.C06_DoneScroll.
 Import ListNotations.
 Open Scope Z_scope.
 
@@ -130,6 +131,21 @@ Theorem C06_done_no_scroll_partial : forall r t cfg scr r' ks n,
   trunB H W (t, n) ks = (trun W t ks, n).
 Proof. exact (render_done_bounded W H fs tbs pvis HW HH Hpv). Qed.
 
+(* Any final render on the bounded terminal scrolls AT MOST ONCE (the newline
+   below an output that fills all rows); if it does, the terminal ends exactly as
+   the unbounded terminal's state moved up one line: same cursor column, pen,
+   autowrap, cursor visibility; cursor row one less; every row above the last
+   holds what the unbounded terminal holds one row further down ([shifted]).
+   Together with C06_done_epilogue_partial (which describes the unbounded state)
+   this gives the grid after the scroll; the content of the new last row itself
+   is not stated. *)
+Theorem C06_done_scroll_once_partial : forall r t cfg scr r' ks n,
+  Sync W H fs tbs pvis r t -> wf_screen W H scr -> 1 <= H ->
+  r_render tbs fs r cfg true W H scr = (r', ks) ->
+  trunB H W (t, n) ks = (trun W t ks, n) \/
+  exists tb', trunB H W (t, n) ks = (tb', n + 1) /\ shifted H (trun W t ks) tb'.
+Proof. exact (render_done_scroll W H fs tbs pvis HW HH Hpv). Qed.
+
 (* erase(): cursor back at the origin, everything from the origin down blank,
    attributes reset, autowrap on, cursor shown, renderer back in sync. *)
 Theorem C06_erase_partial : forall r t r' ks,
@@ -158,8 +174,45 @@ Print Assumptions C06_rows_done_partial.
 Print Assumptions C06_rows_erase.
 Print Assumptions C06_no_scroll_partial.
 Print Assumptions C06_done_no_scroll_partial.
+Print Assumptions C06_done_scroll_once_partial.
 Print Assumptions C06_erase_partial.
 Print Assumptions C06_sync_initial.
+
+(* last_style tracking, explicit at every fragment of the diff loop.
+   [Inv W tb t pos ls]: the terminal cursor is where the loop's current_pos says
+   (column min(x, W-1): the last-column quirk), no pending wrap, autowrap off, and
+   PenOK: whenever last_style = Some s, the terminal's pen IS the pen of style s.
+   It holds before and after every move_cursor, every drawn cell and every row;
+   each drawn cell is written with exactly its own style's pen. *)
+Theorem C06_last_style_move_cursor : forall (W : Z) (tb : tabs) t x y ls nx ny ls' ks,
+  Inv W tb t (x, y) ls -> 0 <= nx <= W - 1 -> 0 <= ny ->
+  move_cursor W (x, y) ls (nx, ny) = (ls', ks) ->
+  Inv W tb (trun W t ks) (nx, ny) ls' /\ sbcp t (trun W t ks) /\ cx (trun W t ks) = nx /\
+  (y < ny -> pen (trun W t ks) = 0 /\ ls' = None) /\
+  (ny <= y -> pen (trun W t ks) = pen t /\ ls' = ls).
+Proof. exact move_cursor_ok. Qed.
+Print Assumptions C06_last_style_move_cursor.
+
+Theorem C06_last_style_draw_cell_partial : forall (W : Z) (tb : tabs) t c y ls nc ls' ks,
+  Inv W tb t (c, y) ls -> 0 <= c <= W - 1 -> ncell nc -> tk (tgrid t y c) = 0 ->
+  (if is_transp nc then (None, [TSGR 0; TText [32] 1]) else output_char tb ls nc) = (ls', ks) ->
+  Inv W tb (trun W t ks) (c + 1, y) ls' /\ cvis (trun W t ks) = cvis t /\ undef (trun W t ks) = undef t /\
+  tgrid (trun W t ks) = upd (tgrid t) y c (mkcell (ch nc) (cpen tb nc) 0).
+Proof. exact draw_cell_ok. Qed.
+Print Assumptions C06_last_style_draw_cell_partial.
+
+Theorem C06_last_style_row_partial : forall (W : Z) (tb : tabs) (pvis : Z -> Z),
+  1 <= W -> (forall a, ahs tb a = false -> pvis (apen tb a) = pvis 0) ->
+  forall y scr prev pos ls t pos' ls' ks,
+  0 <= y -> nscreen scr -> Inv W tb t pos ls ->
+  (forall x, 0 <= x < W -> shows tb pvis (tgrid t y x) (scell prev y x)) ->
+  do_row tb W y scr prev pos ls = (pos', ls', ks) ->
+  Inv W tb (trun W t ks) pos' ls' /\ cvis (trun W t ks) = cvis t /\ undef (trun W t ks) = undef t /\
+  (forall y' x, y' <> y -> tgrid (trun W t ks) y' x = tgrid t y' x) /\
+  (forall x, 0 <= x < W -> shows tb pvis (tgrid (trun W t ks) y x) (scell scr y x)) /\
+  okrun (Z.max (snd pos) y) y W t ks.
+Proof. exact do_row_ok. Qed.
+Print Assumptions C06_last_style_row_partial.
 
 (* Non-vacuity of the hypotheses: a screen with text, a styled blank and an
    unstyled trailing blank is well formed. *)
@@ -173,3 +226,10 @@ Example C06_wf_tall_screen :
   wf_screen 4 2 (mks 5 true 0 1 [(0, [(0, mkc [97] 2 1)]); (3, [(1, mkc [98] 0 1)])] []).
 Proof. exact wf_example_tall. Qed.
 Print Assumptions C06_wf_tall_screen.
+
+(* ... and a row with cells at column indices >= the terminal width (a float
+   overhanging the right edge): wf_screen puts no condition on columns. *)
+Example C06_wf_cells_beyond_width :
+  wf_screen 2 2 (mks 1 true 1 0 [(0, [(0, mkc [97] 0 1); (1, mkc [98] 0 1); (2, mkc [99] 2 1); (5, mkc [100] 3 1)])] []).
+Proof. exact wf_example_overhang. Qed.
+Print Assumptions C06_wf_cells_beyond_width.
